@@ -68,7 +68,7 @@ def obligations(tier):
             sysrename=["_exit"],
             grid=[{"NR": n} for n in nrs],
             unwind_default=24,
-            unwind=lambda p: {"substdio_put": 40, "substdio_get": 2, "smtpcode~for (;;)": 4, "smtpcode~while (ch": 3,
+            unwind=lambda p: {"substdio_put": 40, "substdio_get": 2, "smtpcode~for (;;)": 4, "smtpcode~while (ch": 8,   # generous: a parser that loses sync must show as a verdict, not as a bound
                               "smtp": p["NR"] + 1, "check_rcpt_reports": p["NR"] + 1, "ref_walk": p["NR"] + 1,
                               "vmain": p["NR"] + 6, "server_command": p["NR"] + 1},
             backend="cadical", timeout=1500,      # measured under load: NR=1 100-120 s, NR=2 150-175 s, NR=3 246 s (minisat: 2-3x slower)
